@@ -20,6 +20,26 @@ CHECKS = {
              "-true-names with overloads are not judged.",
         technique="bounded exhaustive program x configuration enumeration on the real tools, native-twin oracle",
     ),
+    "C04": dict(
+        level="model_checking",
+        text="Exhaustive small-scope enumeration of class layouts (12 member kinds x 7 section labels; all singles, all "
+             "ordered pairs, thorough: triples) x 9 file placements x {default,-promiscuous} x 8 command files x 2 "
+             "back-ends; the set of entities in the database and the wrappers in the -oc file are compared with a literal "
+             "transcription of the property's if-and-only-if, safety and presence directions reported separately.",
+        design="4/C04",
+        note="Readings fixed in DESIGN 4/C04 (destructor plumbing, get_class_type exception out of the alphabet); implicit "
+             "special members are left to C10; .cxx placement presence unjudged.",
+        technique="bounded exhaustive program x configuration enumeration on the real tool, reference-model oracle",
+    ),
+    "C05": dict(
+        level="model_checking",
+        text="Exhaustive enumeration of header atoms (signatures, inheritance shapes, properties/sequences, enums, typedefs, "
+             "nesting, operators, comment layouts x distances) rendered with ground truth; every field of every exported "
+             "entity in the database dump is compared with the ground truth, pointer-adjustment facts taken from g++.",
+        design="4/C05",
+        note="Comment slot of typedefs, typecast operator label and class-typed setter are not judged (see DESIGN 9).",
+        technique="bounded exhaustive program enumeration on the real tool, generator ground truth + g++ oracle",
+    ),
     "C14": dict(
         level="model_checking",
         text="Deviation-bounded enumeration of environment answers (allocator address order asc/desc and every permutation "
